@@ -834,8 +834,11 @@ class Evolution(pg.DNAGenerator):
         self._global_state.num_generations = generation_id
 
     # Recover the state of the population initializer.
+    # NOTE: mirrors `_feedback`, which ends the initial phase at the feedback
+    # that completes the initial population - never before the first one (an
+    # initial population size of 0 included).
     if (self._init_population_size is not None
-        and len(init_population) >= self._init_population_size):
+        and len(init_population) >= max(self._init_population_size, 1)):
       self._population_initialized = True
     self._init_population_generator.recover(init_population)
 
